@@ -596,18 +596,46 @@ pub struct TrainRun {
 }
 
 /// Run the forward / backward / update loop of a real `Model` built from spied layers and a spied optimizer.
-/// The caller's data set: one array per distinct batch, handed out as clones of that array.
+/// The caller's data set: a batch that comes round again is the same array handed in again (`x.clone()`). Only batches
+/// that WILL come again are held, and only until their last use - a holder of its own would change reference counts the
+/// library may look at (section 10: a monitor that keeps handles changes what it observes).
 #[derive(Default)]
 pub struct Dataset {
+    /// (batch, uses still to come)
+    plan: Vec<(T<f64>, usize)>,
     held: Vec<(T<f64>, Array)>,
 }
+fn same_batch(a: &T<f64>, b: &T<f64>) -> bool {
+    a.dims == b.dims && a.v.iter().map(|x| x.to_bits()).eq(b.v.iter().map(|x| x.to_bits()))
+}
 impl Dataset {
+    pub fn for_iterations(iterations: &[Iteration]) -> Dataset {
+        let mut d = Dataset::default();
+        for it in iterations {
+            for t in it.abandoned_forward.iter().chain(std::iter::once(&it.input)).chain(std::iter::once(&it.target)).chain(it.late_forward.iter()) {
+                match d.plan.iter_mut().find(|(h, _)| same_batch(h, t)) {
+                    Some((_, n)) => *n += 1,
+                    None => d.plan.push((t.clone(), 1)),
+                }
+            }
+        }
+        d
+    }
     pub fn array(&mut self, t: &T<f64>) -> Array {
-        if let Some((_, a)) = self.held.iter().find(|(h, _)| h.dims == t.dims && h.v.iter().map(|x| x.to_bits()).eq(t.v.iter().map(|x| x.to_bits()))) {
-            return a.clone();
+        let left = match self.plan.iter_mut().find(|(h, _)| same_batch(h, t)) {
+            Some((_, n)) => {
+                *n = n.saturating_sub(1);
+                *n
+            }
+            None => 0,
+        };
+        if let Some(i) = self.held.iter().position(|(h, _)| same_batch(h, t)) {
+            return if left == 0 { self.held.swap_remove(i).1 } else { self.held[i].1.clone() };
         }
         let a = arr_t(t);
-        self.held.push((t.clone(), a.clone()));
+        if left > 0 {
+            self.held.push((t.clone(), a.clone()));
+        }
         a
     }
 }
@@ -632,7 +660,7 @@ pub fn train_spied(spec: &NetSpec, params: &[T<f64>], iterations: &[Iteration], 
         // a checkpoint (handle clones, as `p.clone()` in user code) is kept only by histories that restore from it
         let wants_checkpoint = iterations.iter().any(|it| it.rebuild.as_ref().map(|rb| !rb.restores.is_empty()).unwrap_or(false));
         let checkpoint: Vec<Array> = if wants_checkpoint { spies.iter_mut().flat_map(|s| s.parameters()).map(|p| (*p).clone()).collect() } else { vec![] };
-        let mut dataset = Dataset::default();
+        let mut dataset = Dataset::for_iterations(iterations);
         let mut i = 0;
         while i < iterations.len() {
             if let Some(rb) = &iterations[i].rebuild {
@@ -689,7 +717,7 @@ pub fn train_spied(spec: &NetSpec, params: &[T<f64>], iterations: &[Iteration], 
                 losses.push(loss as f64);
                 if let Some(x) = &it.late_forward {
                     let n0 = events.borrow().len();
-                    let _ = model.forward(arr_t(x));
+                    let _ = model.forward(dataset.array(x));
                     events.borrow_mut().truncate(n0);
                 }
                 if it.rebuild_before_update {
